@@ -142,9 +142,12 @@ NoArgsLab(t, w) ==
    mode |-> IF t = "config_apply" THEN "preview_only" ELSE IF t \in ConfigLifecycleTools THEN "default" ELSE "none",
    wire |-> w, backend |-> "sqlite", conf |-> "all", valid |-> FALSE]
 
-PathShapes  == {"path_absent", "path_foreign", "path_dotdot_foreign", "path_symlink_foreign", "path_dirlink_dotdot",
+\* near misses of the configured path: another letter case of the file or directory name is another file on a
+\* case-sensitive file system; "/./", "//" and "dir/../dir" are other spellings of the same file
+PathShapes  == {"path_case_base", "path_case_dir", "path_dot", "path_trailing_slash", "path_double_slash",
+                "path_absent", "path_foreign", "path_dotdot_foreign", "path_symlink_foreign", "path_dirlink_dotdot",
                 "path_relative", "path_alias_dotdot", "path_alias_symlink", "path_badtype"}
-PidShapes   == {"pid_absent", "pid_foreign", "pid_alias_dotdot", "pid_badtype"}
+PidShapes   == {"pid_absent", "pid_foreign", "pid_alias_dotdot", "pid_badtype", "pid_case_base", "pid_dot"}
 ActorShapes == {"actor_case", "actor_suffix"}
 ApplyShapes == {"content_noparse_preview", "content_noparse_write", "content_noparse_reload",
                 "content_nocompile_preview", "content_nocompile_write", "content_nocompile_reload",
@@ -194,14 +197,15 @@ ShapeLab(t, actor, s) ==
     [] s = "nopid_pid_absent"  -> [b EXCEPT !.conf = "nopid", !.pid = "none", !.valid = FALSE]
     [] s = "nodb_minimal"      -> [b EXCEPT !.conf = "nodb", !.valid = FALSE]
     [] s = "path_absent"  -> [b EXCEPT !.path = "none"]
-    [] s \in {"path_foreign", "path_dotdot_foreign", "path_symlink_foreign", "path_dirlink_dotdot", "path_relative"}
+    [] s \in {"path_foreign", "path_dotdot_foreign", "path_symlink_foreign", "path_dirlink_dotdot", "path_relative",
+               "path_case_base", "path_case_dir", "path_trailing_slash"}   \* "file/" does not resolve at all
                           -> [b EXCEPT !.path = "foreign", !.valid = FALSE]
-    [] s \in {"path_alias_dotdot", "path_alias_symlink"}
+    [] s \in {"path_alias_dotdot", "path_alias_symlink", "path_dot", "path_double_slash"}
                           -> [b EXCEPT !.path = "alias", !.valid = FALSE]
     [] s = "path_badtype" -> [b EXCEPT !.path = "badtype", !.valid = FALSE]
     [] s = "pid_absent"   -> [b EXCEPT !.pid = "none"]
-    [] s = "pid_foreign"  -> [b EXCEPT !.pid = "foreign", !.valid = FALSE]
-    [] s = "pid_alias_dotdot" -> [b EXCEPT !.pid = "alias", !.valid = FALSE]
+    [] s \in {"pid_foreign", "pid_case_base"} -> [b EXCEPT !.pid = "foreign", !.valid = FALSE]
+    [] s \in {"pid_alias_dotdot", "pid_dot"}   -> [b EXCEPT !.pid = "alias", !.valid = FALSE]
     [] s = "pid_badtype"  -> [b EXCEPT !.pid = "badtype", !.valid = FALSE]
     [] s \in ActorShapes  -> [b EXCEPT !.actor = "different", !.valid = FALSE]
     [] s \in {"content_noparse_preview", "content_nocompile_preview"}
@@ -223,14 +227,25 @@ ShapeLab(t, actor, s) ==
 (* Outcome of a call r = [tool, role, mut, rc, principal, actor, shape,    *)
 (* lab]: must it be refused, must it succeed, or is either acceptable.     *)
 (***************************************************************************)
-GateR(r) == Gate(r.tool, r.role, r.mut, r.rc, r.principal)
+\* Spelling of the tool NAME on the wire.  r.tool is the tool whose arguments the call carries; the name sent is
+\* r.tool itself ("exact") or a near miss of it: padded with white space, or in another letter case.  A name that is
+\* not exactly an advertised tool name is not a tool: whatever the role and the flags, nothing may run.
+Spellings == {"exact", "trail_space", "lead_space", "trail_tab", "trail_newline", "upper"}
+NotATool  == "(not a tool)"
+WireTool(r) == IF r.spell = "exact" THEN r.tool ELSE NotATool
 
+GateR(r) == Gate(WireTool(r), r.role, r.mut, r.rc, r.principal)
+
+\* "path ... must match the configured --config path", "only configured --pid-file is accepted": any other spelling is
+\* refused, also one that names the same file ("alias"); surrounding white space is trimmed from every string argument
+\* and such a path counts as the configured one
 Refuse(r) ==
+  LET t == WireTool(r) IN
   \/ ~GateR(r)
-  \/ (r.tool \in MutatingTools /\ r.lab.actor = "different")
-  \/ (r.tool \in PathTools /\ r.lab.path = "foreign")
-  \/ (r.tool \in PidTools /\ r.lab.pid = "foreign")
-  \/ (r.tool \in StrictTools /\ r.lab.extra)
+  \/ (t \in MutatingTools /\ r.lab.actor = "different")
+  \/ (t \in PathTools /\ r.lab.path \in {"foreign", "alias"})
+  \/ (t \in PidTools /\ r.lab.pid \in {"foreign", "alias"})
+  \/ (t \in StrictTools /\ r.lab.extra)
   \/ r.lab.wire = "nonobject"                         \* not a well-formed tools/call at all
 
 ExpectObs(r) == IF Refuse(r) THEN "refused" ELSE IF r.lab.valid THEN "ok" ELSE "any"
